@@ -2,7 +2,7 @@
    Statements only; proofs live in Proofs/CompileProofs.v.
    Model/Compile.v  : pyzx `Scalar` record, `scalar_value` (= Scalar.evaluate_scalar, the reference), `compile_scalar_graphs`;
    Model/Evaluate.v : `matmul_gf2`, `evaluate` (one row of param_vals), `eval_guard` (the int32 no-wrap guard of C09, decidable);
-   gen/Gen_matmul_gf2.v : `gf2_mod_before_cast`, regenerated from compile/evaluate.py on every run. *)
+   gen/Gen_matmul_gf2.v : `gf2_mod_before_cast`, `eval_empty_returns_zero`, regenerated from compile/evaluate.py on every run. *)
 From Coq Require Import ZArith List Bool Ring_theory.
 Import ListNotations.
 Require Import TV.Base.D8 TV.gen.Gen_matmul_gf2 TV.Model.ExactScalar TV.Model.Compile TV.Model.Evaluate TV.Proofs.CompileProofs.
@@ -53,9 +53,15 @@ Proof. exact row_of_surjective. Qed.
 Theorem C10_compile_total : forall gs ps, Forall (wf_scalar ps) gs -> exists c, compile_scalar_graphs gs ps = Some c.
 Proof. exact compile_total. Qed.
 
-(* recorded behaviour: if every graph is the zero scalar, nothing is left and the evaluator raises instead of returning 0 *)
-Theorem C10_all_zero_raises : forall gs ps c bits, Forall (fun g => s_is_zero g = true) gs ->
-  compile_scalar_graphs gs ps = Some c -> evaluate bits c = None.
+(* a list in which every graph is the zero scalar (nothing is left after compilation): with the guard for an empty graph axis at
+   the top of `evaluate` the result is the exact 0 and the no-wrap guard holds, so C10_eval covers it; without that guard the
+   evaluator raises instead of returning 0.  Which case applies is regenerated from the source (eval_empty_returns_zero). *)
+Theorem C10_all_zero_value : forall gs ps c bits, eval_empty_returns_zero = true ->
+  Forall (fun g => s_is_zero g = true) gs -> compile_scalar_graphs gs ps = Some c ->
+  evaluate bits c = Some (EvExact (q4_zero, 0)) /\ eval_guard bits c = true.
+Proof. exact all_zero_value. Qed.
+Theorem C10_all_zero_raises : forall gs ps c bits, eval_empty_returns_zero = false ->
+  Forall (fun g => s_is_zero g = true) gs -> compile_scalar_graphs gs ps = Some c -> evaluate bits c = None.
 Proof. exact all_zero_raises. Qed.
 
 (* ---- the pieces, stated on their own ---- *)
